@@ -989,9 +989,9 @@ func c26AllSpecs() map[string][]c26Params {
 			{Name: "wsync-eager-burst-dev3-mut2", Eager: true, Devs: 3, Muts: 2, Depth: 16, BadValue: true},
 			{Name: "wsync-eager-each-dev2-mut2", Eager: true, FlushEach: true, Devs: 2, Muts: 2, Depth: 14, BadValue: true},
 			{Name: "wsync-full-dev2-mut1", Devs: 2, Muts: 1, Depth: 16},
-			{Name: "wsync-full-dev1-mut2", Devs: 1, Muts: 2, Depth: 16, BadValue: true},
+			{Name: "wsync-full-dev1-mut2", Devs: 1, Muts: 2, Depth: 14, BadValue: true},
 			{Name: "wsync-eager-burst-dev2-mut1-tree", Eager: true, Devs: 2, Muts: 1, Depth: 7, Tree: true},
-			{Name: "wsync-full-dev1-mut1-tree", Devs: 1, Muts: 1, Depth: 7, Tree: true},
+			{Name: "wsync-full-dev1-mut1-tree", Devs: 1, Muts: 1, Depth: 6, Tree: true},
 		},
 	}
 }
